@@ -196,8 +196,11 @@ class Schedule:
             # the runnable sets are recorded so that the caller can enumerate the alternatives
             ch = sp["choices"]
             self.branching = getattr(self, "branching", [])
-            self.branching.append(len(runnable))
-            return runnable[ch[n]] if n < len(ch) else runnable[0]
+            # index 0 = keep running the current task when it is runnable (no preemption)
+            cur_in = self.current in runnable
+            order = ([self.current] + [t for t in runnable if t != self.current]) if cur_in else list(runnable)
+            self.branching.append((len(order), cur_in))
+            return order[ch[n]] if n < len(ch) else order[0]
         if sp["kind"] == "choices":
             ch = sp["choices"]
             if n < len(ch):
